@@ -4,12 +4,12 @@ From FV Require Import Base.Str Shared.Resolve C12.Model.
 
 Lemma in_use_candidates p d m e l : In (m, e, l) (use_candidates p d) ->
   exists info i msc, In (m, info) d /\ sassoc m (p_tree p) = Some i /\ scope_at p i = Some msc /\
-                     In e (module_candidates msc info) /\ l = label_of info e.
+                     In e (module_candidates msc info) /\ In l (labels_of info e).
 Proof.
   unfold use_candidates. intro H. apply in_flat_map in H as [[m' info] [Hin H]]. cbn [fst snd] in H.
   destruct (sassoc m' (p_tree p)) as [i|] eqn:Ei; [|contradiction].
   destruct (scope_at p i) as [msc|] eqn:Es; [|contradiction].
-  apply in_map_iff in H as [e' [E He]]. inversion E; subst. exists info, i, msc. auto.
+  apply in_flat_map in H as [e' [He Hl]]. apply in_map_iff in Hl as [l' [E Hl']]. inversion E; subst. exists info, i, msc. auto.
 Qed.
 
 (* every candidate that comes through USE is a public child of its module ... *)
@@ -72,7 +72,7 @@ Proof.
   intros Hnoren H. apply in_use_candidates in H as [info [i [msc [Hin [Hi [Hs [Hc Hl]]]]]]].
   rewrite Forall_forall in Hnoren.
   assert (Hr : i_ren info = []) by (apply (Hnoren (m, info) Hin)).
-  unfold label_of in Hl. rewrite Hr in Hl. subst l.
+  unfold labels_of in Hl. rewrite Hr in Hl. destruct Hl as [Hl|[]]. subst l.
   destruct (module_candidates_public _ _ _ Hc) as [Hch Hpub].
   assert (Honly : i_only info = [] \/ smem (e_name e) (i_only info) = true).
   { destruct (i_only info) eqn:E; [now left|right]. rewrite <- E.
@@ -118,12 +118,11 @@ Proof.
                   (i_only info = [] \/ smem name (i_only info) = true) -> In (m', e0, name) (use_candidates p ((m', info) :: r))).
   { intros msc Hs e0 Hc Ho. apply check_scope_some in Hc as [Hin [Hp Hn]].
     unfold use_candidates. cbn [flat_map fst snd]. rewrite Ei, Hs. apply in_or_app. left.
-    apply in_map_iff. exists e0. split.
-    - unfold label_of. rewrite Hr. now rewrite Hn.
-    - unfold module_candidates.
-      assert (Hpub : In e0 (filter (fun e1 => negb (is_private msc e1)) (sp_children msc))) by (apply filter_In; split; [exact Hin|now rewrite Hp]).
-      destruct (i_only info) as [|o os] eqn:Eo; [exact Hpub|]. apply filter_In. split; [exact Hpub|].
-      unfold remote_names. rewrite Hr, Eo. cbn [sassoc]. rewrite map_id. rewrite Hn. destruct Ho as [Ho|Ho]; [discriminate|exact Ho]. }
+    apply in_flat_map. exists e0. split; [|unfold labels_of; rewrite Hr; left; now rewrite Hn].
+    unfold module_candidates.
+    assert (Hpub : In e0 (filter (fun e1 => negb (is_private msc e1)) (sp_children msc))) by (apply filter_In; split; [exact Hin|now rewrite Hp]).
+    destruct (i_only info) as [|o os] eqn:Eo; [exact Hpub|]. apply filter_In. split; [exact Hpub|].
+    unfold remote_names. rewrite Hr, Eo. cbn [sassoc]. rewrite map_id. rewrite Hn. destruct Ho as [Ho|Ho]; [discriminate|exact Ho]. }
   rewrite Hr. cbn [sassoc].
   destruct (i_only info) as [|o os] eqn:Eo.
   - destruct (scope_at p i) as [msc|] eqn:Es; [|intro H; apply Htail; now apply IH].
